@@ -4,6 +4,8 @@ from rules.common import *  # noqa: F401,F403
 from callgraph import callgraph_of
 from flow import ENUMS
 import tables
+import re
+from verdict import NoVerdict
 
 RUN = 'bidir::run_bisync'
 FINGERPRINT = 'meta::fingerprint_path'
@@ -121,6 +123,14 @@ class Bisync:
         for need in ('root_a', 'root_b', 'a', 'b', 'rel', 'act', 'common'):
             if need not in self.roles:
                 ctx.missing(rid, 'apply parameter role %s (from the call in run_bisync)' % need)
+        # one struct PER SIDE (`apply(a: &Replica, b: &Replica, ..)`, the same type twice): the arms are then written once, in terms
+        # of "this side" and "the peer" (methods of that type, spliced in here) - which replica a path belongs to is decided by
+        # which of the two values a method was called on, which the per-arm reading of apply does not follow
+        if self.role_path.get('root_a') and self.role_path.get('root_b') and self.roles['root_a'] != self.roles['root_b']:
+            ta = re.sub(r"^&(mut )?", '', self.apply.local_ty(self.roles['root_a'])).split('<')[0].strip()
+            tb = re.sub(r"^&(mut )?", '', self.apply.local_ty(self.roles['root_b'])).split('<')[0].strip()
+            if ta == tb:
+                raise NoVerdict('undecided: %s apply receives the two replicas as two values of one type (`%s`): its arms are written per side in methods of that type, which the per-arm reading of apply does not cover' % (rid, ta.split('::')[-1]))
         self.arms = variant_edges(self.afl, self.roles['act'], 'reconcile::Action')
         self.kinds = variant_edges(self.afl, self.roles['act'], 'reconcile::ConflictKind', ('Conflict', '0'))
         if not self.arms or not self.kinds:
